@@ -773,8 +773,8 @@ def selftest(prop):
     return 0 if res.get("ok") else 2
 
 RULES = {
-    "C14": "one evaluation = one simulated execution: a seeded history of 3-15 operations (CompilePackage / LoadLocalPackage / LintAll / LintFile / failing compile / transient read error, on fresh or reused PackageSets) over one program (hand-written bundle or seeded j5s bundle), with a seeded order at every Go-map / protobuf-Range iteration site in /repo and at every package/file/dependency listing; after every successful CompilePackage the descriptors (deterministic wire bytes) and printed .proto text are compared byte-for-byte with the reference execution of the same program (canonical listings, identity orders, fresh PackageSet per package). Non-trivial = at least one non-identity order was applied to a collection of >=2 elements, or a PackageSet was reused. Distinct = distinct hash of (program digest, history, applied orders).",
-    "C10": "one evaluation = one simulated run: 2-5 tasks (real goroutines, exactly one running at a time, chosen by a seeded scheduler at AST-inserted yield points; the hand-off is invisible to the race detector) each performing 1-5 codec/reflector operations on one shared codec. Oracles: Go race detector report, panic, deadlock, no-progress, and every call's outcome must be one it has in a sequential execution of the same workload. Non-trivial = >=2 tasks and at least one context switch while some task was inside the schema build path. Distinct = distinct schedule signature (hash of the global (task, yield-site) event sequence and workload).",
+    "C14": "one evaluation = one simulated execution: a seeded history of 3-15 operations (CompilePackage / LoadLocalPackage / LintAll / LintFile / failing compile / transient read error, on fresh or reused PackageSets) over one program (hand-written bundle or seeded j5s bundle), with a seeded order at every Go-map / protobuf-Range iteration site in /repo and at every package/file/dependency listing; after every CompilePackage the descriptors (deterministic wire bytes) and printed .proto text of every returned file - or the fact that the package does not compile - are compared with the reference execution of the same program (canonical listings, identity orders, fresh PackageSet per package); returned files are re-examined in another order, twice, and at the end of the history. Two of the sixteen workers run under the race detector. After the workers: reference digests compared across processes, histories and environments. Non-trivial = at least one non-identity order was applied to a collection of >=2 elements, or a PackageSet was reused. Distinct = distinct hash of (program digest, history, applied orders).",
+    "C10": "one evaluation = one simulated run: 2-12 tasks (real goroutines, exactly one running at a time, chosen by a seeded scheduler at AST-inserted yield points; the hand-off is invisible to the race detector; goroutines, timers, condition variables and WaitGroups of the code under test are tasks and waits of the same scheduler) each performing 1-5 codec/reflector operations on one shared codec (or two side by side), under a simulated clock. Oracles: Go race detector report, panic, deadlock, no-progress, and every call's outcome must be what the call returns alone on a fresh instance (any way it fails alone, if it fails). The cold-start slice (short-lived processes whose first contact with the code under test is such a run) is counted in the same way. Non-trivial = >=2 tasks and at least one context switch while some task was inside the schema build path. Distinct = distinct schedule signature (hash of the global (task, yield-site) event sequence and workload).",
 }
 COMPONENTS = {
     "C14": dict(real_instrumented=["internal/j5s/protobuild", "internal/j5s/j5convert", "internal/j5s/sourcewalk", "internal/j5s/j5parse", "internal/j5s/protoprint", "internal/j5s/protoprint/optionreflect", "internal/bcl/**", "internal/protosrc", "lib/j5schema", "lib/j5reflect", "internal/codec",
